@@ -95,6 +95,19 @@ impl S3Actor {
                     }
                     o.send(d, m);
                 }
+                RCmd::Bcast(ds, m) => {
+                    let ds: Vec<Id> = ds.into_iter().map(|d| self.fix(d)).collect();
+                    let m = M { tag: m.tag, who: m.who.map(|w| self.fix(w)) };
+                    let m = Big { blob: blob_for(m.tag, self.big_tag, self.blob_len), m };
+                    for d in &ds {
+                        if let Ok(bytes) = ser(&m) {
+                            ev.sends.push((id_u64(*d), dig(&bytes)));
+                        } else {
+                            ev.unserializable += 1;
+                        }
+                    }
+                    o.broadcast(&ds, &m);
+                }
                 RCmd::SetTimer(t) => {
                     let (a, b) = self.ranges[t as usize % self.ranges.len()];
                     ev.timer_cmds.push((true, t));
